@@ -22,9 +22,9 @@ def replay_fn(func, args):
   A = adapters.RealNP
   try:
     if func in ('padded', 'padded_reach'):
-      ok = h.check_padded(cdm, A, list(args['vals']), args['batch_size'], args['buckets'], args['pp'])
+      ok = h.check_padded(cdm, A, list(args['vals']), args['batch_size'], args['buckets'], args['pp'], args.get('sl', 0))
     elif func == 'plain':
-      ok = h.check_plain(cdm, A, list(args['vals']), args['batch_size'], args['drop'], args['pp'])
+      ok = h.check_plain(cdm, A, list(args['vals']), args['batch_size'], args['drop'], args['pp'], args.get('sl', 0))
     else:
       ok = h.check_final_size(cdm, args['n'], args['batch_size'], args['buckets'])
   except Exception as e:   # pylint: disable=broad-except
@@ -45,10 +45,15 @@ def validate_models(run):
   # the oracle itself must accept the real code on the repo's own test inputs (translator validation)
   h, adapters = _harness()
   cdm, A = adapters.load_real_cd(), adapters.RealNP
-  ok = all([h.check_padded(cdm, A, [1, 2, 3, 4, 5], 3, 1, 1), h.check_padded(cdm, A, [1, 2, 3, 4, 5], 4, 2, 2),
-            h.check_plain(cdm, A, [1, 2, 3, 4, 5], 3, False, 1), h.check_plain(cdm, A, [1, 2, 3, 4, 5], 3, True, 0),
-            h.check_final_size(cdm, 9, 8, 3), h.check_final_size(cdm, 16, 8, 2)])
-  run.witness('oracle-accepts-real-code-on-test-inputs', 'translation', ok)
+  # concrete layer: the oracle on the real code and real numpy for literal inputs (a failure is a real failing input)
+  lits = [('padded', dict(vals=[1, 2, 3, 4, 5], batch_size=3, buckets=1, pp=1, sl=0)), ('padded', dict(vals=[1, 2, 3, 4, 5], batch_size=4, buckets=2, pp=2, sl=0)),
+          ('padded', dict(vals=[1, 2, 3, 4, 5, 6, 7], batch_size=4, buckets=1, pp=0, sl=2)), ('padded', dict(vals=[4, 5, 6], batch_size=1, buckets=1, pp=1, sl=1)),
+          ('plain', dict(vals=[1, 2, 3, 4, 5], batch_size=3, drop=False, pp=1, sl=0)), ('plain', dict(vals=[1, 2, 3, 4, 5], batch_size=3, drop=True, pp=0, sl=0)),
+          ('plain', dict(vals=[1, 2, 3], batch_size=1, drop=False, pp=0, sl=1)),
+          ('final_size', dict(n=9, batch_size=8, buckets=3)), ('final_size', dict(n=16, batch_size=8, buckets=2)), ('final_size', dict(n=9, batch_size=6, buckets=2))]
+  for func, a in lits:
+    bad, msg = replay_fn(func, a)
+    xh.concrete_probe(run, '%s%s' % (func, sorted(a.items())), bad, msg, {'func': func, 'args': repr(a)})
 
 
 def check(run):
@@ -57,9 +62,10 @@ def check(run):
   run.functions += ['client_datasets.ClientDataset.batch/padded_batch', 'BatchView', 'PaddedBatchView', '_pick_final_batch_size',
                     'pad_examples', 'attach_mask', 'slice_examples', 'BatchPreprocessor']
   run.trusted += ['CrossHair "Confirmed over all paths" (z3 per path)', 'np_lite list-based numpy model (validated against numpy each run)']
-  run.assumptions += ['numpy dtype promotion and real memory layout are outside the model', 'row values are symbolic ints; a second feature has trailing shape (2,)']
+  run.assumptions += ['numpy dtype promotion and real memory layout are outside the model', 'row values are symbolic ints; a second feature has trailing shape (2,); a third is float32 with a non-finite value in every row', 'datasets as constructed and as prefix / inner slices of a longer parent']
   run.bounds = {'N': '0..6 (thorough 0..9)', 'batch_size': '1..4 (6)', 'buckets': '1..3 (4)', 'preprocessor chains': '0, 1 (derived feature), 2 (+ in-place modifier)',
                 'bucket rule alone': 'N<=40, batch<=12, buckets<=4'}
   validate_models(run)
-  specs = [('padded', 'prop'), ('plain', 'prop'), ('final_size', 'prop'), ('padded_reach', 'reach')]
+  specs = [(f, 'prop', {'C03_SL': str(sl)}, '[dataset=%s]' % ['as-built', 'prefix-slice', 'inner-slice'][sl]) for f in ('padded', 'plain') for sl in (0, 1, 2)] + \
+      [('final_size', 'prop'), ('padded_reach', 'reach')]
   xh.discharge(run, HARNESS, specs, timeout, replay_fn, env)
